@@ -45,3 +45,21 @@ Example aes192_c2 : aes_keyed (hex "000102030405060708090a0b0c0d0e0f101112131415
 Proof. vm_compute. reflexivity. Qed.
 Example aes256_c3 : aes_keyed (hex "000102030405060708090a0b0c0d0e0f101112131415161718191a1b1c1d1e1f") (hex "00112233445566778899aabbccddeeff") = hex "8ea2b7ca516745bfeafc49904b496089".
 Proof. vm_compute. reflexivity. Qed.
+
+(* RFC 3610 packet vector #1, GCM specification test case 2, RFC 8439 section 2.8.2 *)
+From Cose Require Import Spec.RFC3610 Lib.Gcm Lib.ChaChaPoly.
+Example ccm_rfc3610_pv1 :
+  RFC3610.seal (aes_keyed (hex "c0c1c2c3c4c5c6c7c8c9cacbcccdcecf")) 8 2 (hex "00000003020100a0a1a2a3a4a5")
+    (hex "08090a0b0c0d0e0f101112131415161718191a1b1c1d1e") (hex "0001020304050607")
+  = hex "588c979a61c663d2f066d0c2c0f989806d5f6b61dac38417e8d12cfdf926e0".
+Proof. vm_compute. reflexivity. Qed.
+Example gcm_tc2 : gcm_seal (aes_keyed (zeros 16)) (zeros 12) (zeros 16) [] = hex "0388dace60b6a392f328c2b971b2fe78ab6e47d42cec13bdf53a67b21257bddf".
+Proof. vm_compute. reflexivity. Qed.
+Example gcm_tc1 : gcm_seal (aes_keyed (zeros 16)) (zeros 12) [] [] = hex "58e2fccefa7e3061367f1d57a4e7455a".
+Proof. vm_compute. reflexivity. Qed.
+Example chachapoly_rfc8439_tag :
+  skipn 114 (chachapoly_seal (hex "808182838485868788898a8b8c8d8e8f909192939495969798999a9b9c9d9e9f") (hex "070000004041424344454647")
+    (hex "4c616469657320616e642047656e746c656d656e206f662074686520636c617373206f66202739393a204966204920636f756c64206f6666657220796f75206f6e6c79206f6e652074697020666f7220746865206675747572652c2073756e73637265656e20776f756c642062652069742e")
+    (hex "50515253c0c1c2c3c4c5c6c7"))
+  = hex "1ae10b594f09e26a7e902ecbd0600691".
+Proof. vm_compute. reflexivity. Qed.
